@@ -229,6 +229,7 @@ func (e *Exec) havocLoc(st *State, key string, a *smt.Term, pos token.Pos) {
 
 // havocAll forgets every heap (unknown callee).
 func (e *Exec) havocAll(st *State, why string, pos token.Pos) {
+	e.approx++
 	if e.disc != nil {
 		e.disc.all = true
 	}
